@@ -165,6 +165,9 @@ pub enum ROp {
     Pos,
     Seek(u64),
     IoRead(usize),
+    /// a 64-bit read attempted where fewer than 64 bits remain on a strict backend: its outcome
+    /// is C09's business; afterwards the reader state is unspecified until the next seek
+    PastEnd,
 }
 
 impl ROp {
@@ -179,6 +182,7 @@ impl ROp {
             ROp::Pos => "pos".into(),
             ROp::Seek(p) => format!("seek:{}", p),
             ROp::IoRead(n) => format!("ior:{}", n),
+            ROp::PastEnd => "pastend".into(),
         }
     }
     pub fn parse(s: &str) -> ROp {
@@ -193,6 +197,7 @@ impl ROp {
             "pos" => ROp::Pos,
             "seek" => ROp::Seek(f[1].parse().unwrap()),
             "ior" => ROp::IoRead(f[1].parse().unwrap()),
+            "pastend" => ROp::PastEnd,
             _ => panic!("bad read op {}", s),
         }
     }
@@ -207,6 +212,7 @@ impl ROp {
             ROp::Pos => "bit_pos",
             ROp::Seek(_) => "set_bit_pos",
             ROp::IoRead(_) => "io_read",
+            ROp::PastEnd => "read_past_end",
         }
     }
 }
